@@ -251,7 +251,7 @@ class Family:
     """
 
     def __init__(self, name, engine, cases, project=None, oracle=None, decisive=True, shrink=None, nontrivial=None,
-                 model_engine=None, model_cases=None, featset="hac", exhaustive=False, profile="debug", impl_only=False):
+                 model_engine=None, model_cases=None, featset="hac", exhaustive=False, profile="debug", impl_only=False, bulk_project=None):
         self.name = name
         self.engine = engine
         self.cases = cases
@@ -260,6 +260,7 @@ class Family:
         self.decisive = decisive
         self.shrink = shrink
         self.nontrivial = nontrivial or (lambda c, o: True)
+        self.bulk_project = bulk_project   # optional function(list of output lines) -> list of projections (one external call for all)
         self.model_engine = model_engine or engine
         self.model_cases = model_cases
         self.featset = featset
@@ -372,6 +373,9 @@ class Check:
             model = run_engine(drv, fam.model_engine, fam.model_cases or fam.cases, is_impl=False)
         nontriv = set()
         bad = []
+        pimpl = pmodel = None
+        if fam.bulk_project and model is not None:
+            pimpl, pmodel = fam.bulk_project(impl), fam.bulk_project(model)
         for i, c in enumerate(fam.cases):
             io = impl[i]
             reason = None
@@ -386,7 +390,7 @@ class Check:
                 if reason is None and model is not None:
                     if model[i] == "NONE":
                         reason = ("model-none", "checked-style model reports a panic/UB site reached (None)")
-                    elif fam.project(io) != fam.project(model[i]):
+                    elif (pimpl[i] != pmodel[i]) if pimpl is not None else (fam.project(io) != fam.project(model[i])):
                         reason = ("diff", "implementation and model differ on projection")
                     elif io != model[i]:
                         self.cov["raw_diffs"] += 1
@@ -497,6 +501,9 @@ class Check:
             return False, io, mo
         if kind == "model-none":
             return mo == "NONE", io, mo
+        if fam.bulk_project:
+            a, b = fam.bulk_project([io, mo]) if mo != "NONE" else (0, 0)
+            return (mo != "NONE" and a != b), io, mo
         return (mo != "NONE" and fam.project(io) != fam.project(mo)), io, mo
 
     def shrink(self, fam, case, kind, hb, drv):
